@@ -2,6 +2,7 @@
 package c07
 
 import (
+	"bytes"
 	"context"
 	"encoding/binary"
 	"fmt"
@@ -161,6 +162,21 @@ func seqCase(c *core.Ctx, r *core.Rand, i int) {
 				c.Count("undecodable_frames_in_sequences", 1)
 			}
 		}
+		if r.P(1, 15) {
+			// a framed structure whose announced length is not a multiple of 8: like any item it is followed by
+			// padding up to the next multiple of 8, and that padding belongs to it. Whatever Recv says about
+			// the frame itself, the messages behind it start after the padding.
+			l := 9 + r.Intn(55)
+			if l%8 == 0 {
+				l += 1 + r.Intn(7)
+			}
+			body := make([]byte, (l+7)/8*8)
+			inner := wire.Gen(wire.Node{Tag: 0x420020, Type: wire.ByteString, Bytes: r.Bytes(l - 8)})
+			copy(body, inner) // a byte string of l-8 bytes: header + value = l bytes, then its padding
+			b = append([]byte{0x42, 0x00, 0x78, 0x01, 0, 0, 0, byte(l)}, body...)
+			t = wire.Node{Tag: 1} // tag 1, type 0 marks "oddly sized structure: either outcome, exact extent"
+			c.Count("odd_length_structures_in_sequences", 1)
+		}
 		trees = append(trees, t)
 		stream = append(stream, b...)
 		bounds = append(bounds, len(stream))
@@ -215,6 +231,16 @@ func run(c *core.Ctx, rw io.ReadWriteCloser, ch *chunker, trees []wire.Node, bou
 			return
 		}
 		c.Count("recvs", 1)
+		if trees[j].Tag == 1 && trees[j].Type == 0 {
+			if err == nil {
+				c.Count("odd_length_structures_accepted", 1)
+			}
+			if ch.handed != bounds[j] {
+				c.Violation("C07:consumed-wrong-amount:odd-length-structure", fmt.Sprintf("after the Recv (%v) of frame %d, a structure whose length is not a multiple of 8, the receiver has consumed %d bytes, the frames so far are %d bytes long (%s): the following messages are lost or garbled", err, j+1, ch.handed, bounds[j], label), nil)
+				return
+			}
+			continue
+		}
 		if trees[j].Tag == 0 && trees[j].Type == 0 {
 			if err == nil {
 				c.Violation("C07:undecodable-frame-accepted", fmt.Sprintf("Recv %d returns a value for a frame with an invalid type byte (%s)", j+1, label), nil)
@@ -506,6 +532,100 @@ func e2eCase(c *core.Ctx, r *core.Rand, i int) {
 	c.Count("e2e_client_messages", int64(n))
 }
 
+// gateWriter is a transport whose Write takes the bytes only when its gate opens (a socket whose
+// send buffer is full): what it takes then is what the peer reads.
+type gateWriter struct {
+	entered chan struct{}
+	gate    chan struct{}
+	got     []byte
+}
+
+func (g *gateWriter) Read([]byte) (int, error) { return 0, io.EOF }
+func (g *gateWriter) Close() error             { return nil }
+func (g *gateWriter) Write(p []byte) (int, error) {
+	if g.gate != nil {
+		g.entered <- struct{}{}
+		<-g.gate
+	}
+	g.got = append(g.got, p...)
+	return len(p), nil
+}
+
+// heldSendsCase: several streams of one process send at the same time; the Write of some is held while the
+// others send (messages of the same and of different sizes). Each peer reads exactly the message sent on its stream.
+func heldSendsCase(c *core.Ctx, r *core.Rand, i int) {
+	if i%2 == 0 {
+		defer runtime.GOMAXPROCS(runtime.GOMAXPROCS(1))
+	}
+	n := 2 + r.Intn(3)
+	size := sizeClasses[r.Intn(len(sizeClasses))]
+	type snd struct {
+		w    *gateWriter
+		st   ttlv.Stream
+		tree wire.Node
+		want []byte
+		done chan error
+	}
+	var held []*snd
+	mk := func(gated bool) *snd {
+		sz := size
+		if r.P(1, 3) {
+			sz = sizeClasses[r.Intn(len(sizeClasses))]
+		}
+		t, b := message(r, sz)
+		w := &gateWriter{}
+		if gated {
+			w.entered, w.gate = make(chan struct{}, 1), make(chan struct{})
+		}
+		return &snd{w: w, st: ttlv.NewStream(w, 1<<20), tree: t, want: b, done: make(chan error, 1)}
+	}
+	send := func(s *snd) {
+		s.done <- s.st.Send(gen.ToValue(s.tree))
+	}
+	var all []*snd
+	for k := 0; k < n; k++ {
+		s := mk(true)
+		go send(s)
+		<-s.w.entered // its Send is now inside the transport's Write
+		held = append(held, s)
+		all = append(all, s)
+		// others send, and complete, meanwhile
+		for q := r.Intn(3); q >= 0; q-- {
+			o := mk(false)
+			send(o)
+			all = append(all, o)
+		}
+	}
+	for _, k := range r.Perm(len(held)) {
+		close(held[k].w.gate)
+		<-held[k].done
+	}
+	c.Count("held_sends", int64(len(held)))
+	c.Distinct(core.Hash64("held-sends", fmt.Sprint(n, size, i%2)))
+	for k, s := range all {
+		select {
+		case err := <-s.done:
+			if err != nil {
+				c.Violation("C07:held-send:error", fmt.Sprintf("Send fails on a transport that accepts everything: %v", err), nil)
+				return
+			}
+		default:
+		}
+		if !bytes.Equal(s.w.got, s.want) {
+			c.Violation("C07:held-send:other-bytes-written", fmt.Sprintf("stream %d of %d (%d held in Write while the others sent): its transport was given %d bytes that are not the %d-byte encoding of the message sent on it", k+1, len(all), len(held), len(s.w.got), len(s.want)),
+				map[string]any{"written": fmt.Sprintf("%x", head(s.w.got)), "message": fmt.Sprintf("%x", head(s.want))})
+			return
+		}
+	}
+}
+
+func head(b []byte) []byte {
+	if len(b) > 96 {
+		return b[:96]
+	}
+	return b
+}
+
 func nOf(q, t int) func(string) int {
 	return func(tier string) int {
 		if tier == core.Thorough {
@@ -524,13 +644,14 @@ func Spec() *core.Spec {
 			"truncation at EVERY byte offset of messages up to 2 KB behind a complete message; announced lengths {max-16 .. max+8, 2*max, 2^31, 2^32-8, 2^32-1} for max in {64 KiB, 1 MiB} with consumed-byte, requested-size and TotalAlloc monitors; " +
 			"the last chunk delivered together with io.EOF; byte-wise delivery against a real server connection and a real client connection. every fifth item a bare padded scalar; all messages of a sequence re-read after the last Recv; small configured maxima (16..1024) with complete messages around them; one item in twelve a correctly delimited frame with an invalid type byte (Recv fails, consumes exactly the frame, later messages intact); distinct = distinct (segmentation, boundaries) / (size, offset class) combinations",
 		Assumptions: []string{"messages are compared as trees read back by the harness from the generic value", "alloc monitor: runtime.MemStats.TotalAlloc delta around a single-goroutine call, threshold 256 KiB"},
-		Required:    []string{"sequences", "recvs", "scalar_messages", "undecodable_frames_in_sequences", "small_limit_cases.over", "held_messages_rechecked", "truncations", "limit_cases.over", "limit_cases.within", "eof_with_data_cases", "e2e_server_messages", "e2e_client_messages", "segmentation.1-byte", "segmentation.one-read"},
+		Required:    []string{"sequences", "recvs", "scalar_messages", "undecodable_frames_in_sequences", "odd_length_structures_in_sequences", "held_sends", "small_limit_cases.over", "held_messages_rechecked", "truncations", "limit_cases.over", "limit_cases.within", "eof_with_data_cases", "e2e_server_messages", "e2e_client_messages", "segmentation.1-byte", "segmentation.one-read"},
 		Families: []core.Family{
 			{Name: "sequences", N: nOf(20000, 800000), Run: seqCase},
 			{Name: "truncation", Exhaustive: true, N: nOf(8*6, 8*200), Run: truncCase},
 			{Name: "small-limit", Exhaustive: true, N: nOf(49*4, 49*40), Run: smallLimitCase},
 			{Name: "limit", Exhaustive: true, N: nOf(2*10*4, 2*10*100), Run: limitCase},
 			{Name: "data-with-eof", N: nOf(400, 20000), Run: eofWithDataCase},
+			{Name: "held-sends", N: nOf(600, 30000), Run: heldSendsCase, Timeout: 20 * time.Second},
 			{Name: "end-to-end", N: nOf(200, 6000), Run: e2eCase, Timeout: 20 * time.Second},
 		},
 	}
